@@ -38,6 +38,7 @@ def carriers_for(vals, rng, want_all=False):
     if n == 1:
         out.append('pyint' if all_int else 'pyfloat')
         out.append('str')
+        if not all_int: out.append('str_exp')      # (the same decimal number in exponent notation, no point: '25e-1')
     if all_int:
         for dt in INT_DTYPES:
             info = np.iinfo(dt)
@@ -67,10 +68,17 @@ def dec_str(v):
     if isinstance(v, int): return str(v)
     return format(Decimal(v), 'f')
 
+def exp_str(v):
+    """a dyadic value as a decimal string in exponent notation without a point: 2.5 -> '25e-1'"""
+    q = Fraction(v); k = 0
+    while q.denominator != 1: q *= 10; k += 1
+    return '%de-%d' % (q.numerator, k) if k else '%de0' % q.numerator
+
 def build_carrier(name, vals):
     import numpy as np
     if name in ('pyint', 'pyfloat'): return vals[0]
     if name == 'str': return dec_str(vals[0])
+    if name == 'str_exp': return exp_str(vals[0])
     if name == 'list': return list(vals)
     if name == 'tuple': return tuple(vals)
     if name == 'list_str': return [dec_str(v) for v in vals]
@@ -92,6 +100,7 @@ def carrier_model_arr(name, vals):
     """the (arr, vdt) the model receives: what np.array(carrier) / item(0) give.  Carrier
     glue (np.array dtype inference, float(str)) is outside the model and sampled only."""
     all_int = all(isinstance(v, int) for v in vals)
+    if name == 'str_exp': return ('f', [float(v) for v in vals])
     if name in ('list_str', 'str', 'arr_str', 'npstr'):
         # str2num: float(x) if '.' in x or n_frac > 0 else int(x) -> decided by caller via [str_is_float]
         raise ValueError('string carriers are resolved by the caller')
@@ -144,7 +153,7 @@ def run_impl_store(case, with_callbacks=False):
             if rec: rec.log.clear()
             mode = case.get('setmode', 'slice')
             flat = np.asarray(val).reshape(-1) if not isinstance(val, (int, float, str)) else [val]
-            if case['carrier'] in ('pyint', 'pyfloat', 'str', 'npstr') or str(case['carrier']).startswith('scalar:'):
+            if case['carrier'] in ('pyint', 'pyfloat', 'str', 'str_exp', 'npstr') or str(case['carrier']).startswith('scalar:'):
                 x[0] = val
             elif mode == 'each':
                 for i in range(n): x[i] = flat[i].item() if hasattr(flat[i], 'item') else flat[i]
@@ -321,7 +330,7 @@ def check_store_cases(cases, res, stratum, pid, huge=False, keep_array=False):
 def case_shape(c):
     n = len(c['vals']); name = c['carrier']
     if c['route'] == 'setitem': return (n,)
-    if name in ('pyint', 'pyfloat', 'str', 'npstr', 'decimal') or name.startswith('scalar:'): return ()
+    if name in ('pyint', 'pyfloat', 'str', 'str_exp', 'npstr', 'decimal') or name.startswith('scalar:'): return ()
     if name in ('nested', 'arr2d'): return (2, n // 2)
     return (n,)
 
